@@ -187,6 +187,19 @@ def rule_time_check_shape(ctx, rep, rid: str) -> None:
             others = [n for n in lc.own_nodes() if isinstance(n, (ast.Assign, ast.AugAssign)) and any(norm(t) == counter_attr for t in (n.targets if isinstance(n, ast.Assign) else [n.target])) and n not in inc]
             if others:
                 probs.append(f"{counter_attr} is also written at line {others[0].lineno}")
+            # the `% K == 0` gate only sees every K-th value if the counter moves in unit steps everywhere
+            cname = counter_attr.split(".")[-1]
+            for g in ctx.tree.funcs:
+                if g is lc or g.name == "__init__":
+                    continue
+                for n in g.own_nodes():
+                    if isinstance(n, (ast.Assign, ast.AugAssign)):
+                        tg = n.targets if isinstance(n, ast.Assign) else [n.target]
+                        if any(isinstance(t, ast.Attribute) and t.attr == cname for t in tg):
+                            unit = isinstance(n, ast.AugAssign) and isinstance(n.op, ast.Add) and norm(n.value) == "1"
+                            reset = isinstance(n, ast.Assign) and isinstance(n.value, ast.Constant) and n.value.value == 0
+                            if not (unit or reset):
+                                probs.append(f"{g.qual} moves {cname} by `{short(n, 40)}` (line {n.lineno}): the clock is only read when the counter is an exact multiple of the period, and a step other than 1 can jump over every multiple, so the time limit is never checked again")
         if probs:
             rep.bad(rid, key, "; ".join(probs), loc, {"guards": [norm(a) for a, _ in _raise_guards(lc, r)]})
         else:
